@@ -4,6 +4,7 @@
   queued (`c.parsed`), or a request already popped by the application.
 -/
 import MicroHttp.ConnSpec
+import MicroHttp.Proofs.Descriptors
 namespace MicroHttp.C12
 open MicroHttp
 variable {RL H : Type}
@@ -19,17 +20,17 @@ theorem first_completer (P : Params RL H) (hP : P.WF) (c : Conn RL H) (hI : Inv 
     ∃ new : List (Req RL H), c'.parsed = c.parsed ++ new ∧
       (new = [] → c'.files = c.files ++ fds) ∧
       (∀ r rs, new = r :: rs → r.files = c.files ++ fds ∧ (∀ x ∈ rs, x.files = []) ∧ c'.files = []) := by
-  sorry
+  exact first_completer' P hP c hI chunk fds hne c' h
 
 /-- The read that hits end-of-stream keeps the descriptors that came with it. -/
 theorem eof_keeps (P : Params RL H) (c : Conn RL H) (hI : Inv P c) (fds : List Nat) :
     (tryRead P c (.data [] fds)).1.files = c.files ++ fds ∧ (tryRead P c (.data [] fds)).1.parsed = c.parsed := by
-  sorry
+  exact eof_keeps' P c hI fds
 
 /-- A failed read receives no descriptors and changes no ownership. -/
 theorem failed_read_keeps (P : Params RL H) (c : Conn RL H) (hI : Inv P c) (e : Nat) :
     (tryRead P c (.err e)).1.files = c.files ∧ (tryRead P c (.err e)).1.parsed = c.parsed := by
-  sorry
+  exact failed_read_keeps' P c hI e
 
 /-- the reads of an error-free run: data with descriptors, end-of-stream with descriptors, failures -/
 def arrivals : List Recv → List Nat
@@ -52,11 +53,41 @@ def runReads (P : Params RL H) : Conn RL H → List Recv → Conn RL H × Bool
 theorem conservation (P : Params RL H) (hP : P.WF) (L : Nat) (inputs : List Recv) (c : Conn RL H)
     (h : runReads P (Conn.new L) inputs = (c, true)) :
     filesOf c.parsed ++ c.files = arrivals inputs := by
-  sorry
+  have harr : ∀ (i : Recv) (is : List Recv), arrivals (i :: is) = fdsOf i ++ arrivals is := by
+    intro i is; cases i <;> rfl
+  have gen : ∀ (inputs : List Recv) (c0 : Conn RL H), Inv P c0 → ∀ c, runReads P c0 inputs = (c, true) →
+      filesOf c.parsed ++ c.files = filesOf c0.parsed ++ c0.files ++ arrivals inputs := by
+    intro inputs
+    induction inputs with
+    | nil =>
+      intro c0 _ c h
+      simp only [runReads, Prod.mk.injEq, and_true] at h
+      subst h
+      simp [arrivals]
+    | cons i is ih =>
+      intro c0 hI c h
+      simp only [runReads] at h
+      cases htr : tryRead P c0 i with
+      | mk c1 out =>
+        rw [htr] at h
+        have step : (∀ e, out ≠ .parseErr e) → runReads P c1 is = (c, true) →
+            filesOf c.parsed ++ c.files = filesOf c0.parsed ++ c0.files ++ arrivals (i :: is) := by
+          intro hnp h
+          obtain ⟨s1, s2⟩ := step_conserve P hP c0 hI i c1 out htr hnp
+          rw [ih c1 s1 c h, harr, ← List.append_assoc]
+          exact congrArg (· ++ arrivals is) s2
+        cases out with
+        | parseErr e => simp at h
+        | panic p => simp at h
+        | ok => exact step (by intro e h'; cases h') h
+        | closed => exact step (by intro e h'; cases h') h
+        | streamErr n => exact step (by intro e h'; cases h') h
+  have := gen inputs (Conn.new L) (inv_new' P hP L) c h
+  simpa [Conn.new, filesOf] using this
 
 /-- Popping a request moves its descriptors, with it, out of the connection; nothing else moves. -/
 theorem pop_moves (c : Conn RL H) (r : Req RL H) (c' : Conn RL H) (h : popParsed c = (c', some r)) :
     filesOf c.parsed = r.files ++ filesOf c'.parsed ∧ c'.files = c.files := by
-  sorry
+  exact pop_moves' c r c' h
 
 end MicroHttp.C12
